@@ -1583,7 +1583,7 @@ func (x *Exec) doReturn(st *State, rs []Val, site string) {
 	env.old = x.entryEnv(st)
 	env.fresh = x.freshPred(st)
 	for i, cl := range x.con.Ensures {
-		if cl.Def {
+		if cl.Def || cl.BoundedOnly {
 			continue
 		}
 		lab := cl.Label
